@@ -59,6 +59,7 @@ fn oracle(op: &str, v: &[i128]) -> Option<String> {
     let fr = |p: (i128, i128)| format!("{} {}", p.0, p.1);
     match op {
         "new" => Some(fr(canon(v[0], v[1]))),
+        "newint" => Some(format!("{} 1", v[0])),
         "neg" => Some(fr(canon(-v[0], v[1]))),
         "show" => {
             let p = canon(v[0], v[1]);
@@ -123,7 +124,7 @@ macro_rules! four_forms {
     }};
 }
 
-fn run_t<T>(op: &str, v: &[i128]) -> Result<String, String>
+fn run_t<T>(op: &str, v: &[i128], in_dom: bool) -> Result<String, String>
 where
     T: SignedInteger + Copy + Hash + Display + Debug + TryFrom<i128>,
 {
@@ -135,6 +136,7 @@ where
         }
     }
     let need = match op {
+        "newint" => 1,
         "new" | "neg" | "floor" | "ceil" | "show" => 2,
         "add" | "sub" | "mul" | "div" | "cmp" | "eq" => 4,
         _ => return Ok("bad-op".to_string()),
@@ -143,6 +145,18 @@ where
         return Ok("INVALID".to_string());
     }
     catch(move || {
+        if need == 1 {
+            // `new_int(n)` must be the same value as `new(n, 1)` for ==, cmp, Hash and HashSet
+            let x = Rational::<T>::new_int(t[0]);
+            if !in_dom {
+                return fr(&x);
+            }
+            let y = Rational::<T>::new(t[0], T::ONE);
+            let mut set = HashSet::new();
+            set.insert(y);
+            let ok = x == y && x.cmp(&y) == Ordering::Equal && hash_of(&x) == hash_of(&y) && set.contains(&x);
+            return if ok { fr(&x) } else { format!("{}_differs-from-new(n,1)={}", fr(&x), fr(&y)).replace(' ', "_") };
+        }
         let x = Rational::<T>::new(t[0], t[1]);
         if need == 2 {
             return match op {
@@ -169,6 +183,15 @@ where
             "div" => four_forms!(x, y, /, /=),
             "cmp" => {
                 let c = x.cmp(&y);
+                if !in_dom {
+                    // outside the domain (overflowing or zero-denominator operands) only `cmp` itself is mirrored
+                    return match c {
+                        Ordering::Less => "lt",
+                        Ordering::Equal => "eq",
+                        Ordering::Greater => "gt",
+                    }
+                    .to_string();
+                }
                 let name = match c {
                     Ordering::Less => "lt",
                     Ordering::Equal => "eq",
@@ -181,7 +204,20 @@ where
                     && (x > y) == (c == Ordering::Greater)
                     && (x >= y) == (c != Ordering::Less)
                     && (x == y) == (c == Ordering::Equal)
-                    && y.cmp(&x) == c.reverse();
+                    && (x != y) == (c != Ordering::Equal)
+                    && y.cmp(&x) == c.reverse()
+                    && y.partial_cmp(&x) == Some(c.reverse())
+                    && (y < x) == (c == Ordering::Greater)
+                    && (y <= x) == (c != Ordering::Less)
+                    && (y > x) == (c == Ordering::Less)
+                    && (y >= x) == (c != Ordering::Greater)
+                    && fr(&Ord::min(x, y)) == fr(if c == Ordering::Greater { &y } else { &x })
+                    && fr(&Ord::max(x, y)) == fr(if c == Ordering::Greater { &x } else { &y })
+                    && x.cmp(&x) == Ordering::Equal
+                    && x >= x
+                    && x <= x
+                    && !(x < x)
+                    && !(x > x);
                 if ok {
                     name.to_string()
                 } else {
@@ -222,26 +258,38 @@ fn run_case(line: &str) -> String {
             Err(_) => return out1("INVALID"),
         }
     }
+    // the property's domain: operands inside the guard, non-zero denominators, non-zero divisor
+    let g = if TYPES.contains(&ty) { guard(ty) } else { 0 };
+    let in_guard = nums.iter().all(|z| z.unsigned_abs() <= g as u128);
+    let dens_ok = if op == "newint" {
+        nums.len() == 1
+    } else {
+        nums.len() >= 2 && nums[1] != 0 && (nums.len() < 4 || (nums[3] != 0 && (op != "div" || nums[2] != 0)))
+    };
+    let in_dom = in_guard && dens_ok;
     let r = match ty {
-        "i32" => run_t::<i32>(op, &nums),
-        "i64" => run_t::<i64>(op, &nums),
-        "i128" => run_t::<i128>(op, &nums),
+        "i32" => run_t::<i32>(op, &nums, in_dom),
+        "i64" => run_t::<i64>(op, &nums, in_dom),
+        "i128" => run_t::<i128>(op, &nums, in_dom),
         _ => Ok("bad-type".to_string()),
     };
     let raw = match r {
         Ok(s) => s,
         Err(e) => e,
     };
-    // inside the property's domain the harness's own oracle must agree as well
-    let g = if TYPES.contains(&ty) { guard(ty) } else { 0 };
-    let in_guard = nums.iter().all(|z| z.unsigned_abs() <= g as u128);
-    let dens_ok = nums.len() >= 2 && nums[1] != 0 && (nums.len() < 4 || (nums[3] != 0 && (op != "div" || nums[2] != 0)));
+    // inside the domain the harness's own oracle must agree as well
     if in_guard && dens_ok {
         if let Some(exp) = oracle(op, &nums) {
             if exp != raw {
                 return out2(&raw, &format!("{}_oracle-expects_{}", raw, exp).replace(' ', "_"));
             }
         }
+        return out1(&raw);
+    }
+    // outside the domain the property does not say WHICH panic (abs of MIN, a product, a division by zero) comes
+    // first: only "some panic" vs the returned value is compared with the checked model
+    if raw.starts_with("panic:") {
+        return out1("panic");
     }
     out1(&raw)
 }
@@ -288,6 +336,62 @@ fn nonzero(v: i128) -> i128 {
     }
 }
 
+/// number of `a %= b; swap` rounds rlib's gcd loop performs on (|n|, |d|)
+fn euclid_rounds(n: i128, d: i128) -> u32 {
+    let (mut a, mut b) = (n.unsigned_abs(), d.unsigned_abs());
+    let mut k = 0;
+    while b != 0 {
+        let t = a % b;
+        a = b;
+        b = t;
+        k += 1;
+    }
+    k
+}
+/// the (numerator, denominator) handed to `norm` by a binary operator on canonical x = a/b, y = c/d
+fn norm_input(op: &str, v: &[i128]) -> Option<(i128, i128)> {
+    if v.len() != 4 || v[1] == 0 || v[3] == 0 {
+        return None;
+    }
+    let (a, b) = canon(v[0], v[1]);
+    let (c, d) = canon(v[2], v[3]);
+    match op {
+        "add" => Some((a * d + b * c, b * d)),
+        "sub" | "cmp" => Some((a * d - b * c, b * d)),
+        "mul" => Some((a * c, b * d)),
+        "div" => Some((a * d, b * c)),
+        _ => None,
+    }
+}
+/// record how deep the Euclid loop inside `norm` has to go for this case (64 is where a capped loop would stop)
+fn note_depth(st: &mut Stats, op: &str, ty: &str, v: &[i128]) {
+    let r = if v.len() == 2 { Some(euclid_rounds(v[0], v[1])) } else { norm_input(op, v).map(|(n, d)| euclid_rounds(n, d)) };
+    if let Some(r) = r {
+        let bucket = if r >= 65 { "65plus" } else if r >= 33 { "33to64" } else { "upto32" };
+        st.bump(&format!("euclid_rounds_{}_{}", bucket, ty));
+        if r >= 65 {
+            st.bump(&format!("euclid_rounds_65plus_op_{}", op));
+        }
+    }
+    if (op == "cmp" || op == "eq") && v.len() == 4 && v[1] != 0 && v[3] != 0 && canon(v[0], v[1]) == canon(v[2], v[3]) {
+        st.bump(&format!("{}_on_equal_values_{}", op, ty));
+    }
+}
+/// Fibonacci and Lucas numbers not exceeding `lim`
+fn fib_lucas(lim: i128) -> (Vec<i128>, Vec<i128>) {
+    let (mut f, mut l) = (vec![0i128, 1], vec![2i128, 1]);
+    loop {
+        let k = l.len();
+        let nl = l[k - 1] + l[k - 2];
+        if nl > lim {
+            break;
+        }
+        l.push(nl);
+        f.push(f[k - 1] + f[k - 2]);
+    }
+    (f, l)
+}
+
 fn gen(args: &Args, emit: &mut dyn FnMut(String), st: &mut Stats) {
     let thorough = args.tier == "thorough";
     let mut rng = SplitMix64::new(args.seed ^ 0xC07);
@@ -302,6 +406,10 @@ fn gen(args: &Args, emit: &mut dyn FnMut(String), st: &mut Stats) {
                 }
             }
         }
+        for n in -4 * k..=4 * k {
+            emit(format!("newint:{} {}", ty, n));
+            st.bump(&format!("box_newint_{}", ty));
+        }
         for &(a, b) in &fracs {
             for op in UN_OPS {
                 emit(format!("{}:{} {} {}", op, ty, a, b));
@@ -310,6 +418,7 @@ fn gen(args: &Args, emit: &mut dyn FnMut(String), st: &mut Stats) {
             for &(c, d) in &fracs {
                 for op in BIN_OPS {
                     emit(format!("{}:{} {} {} {} {}", op, ty, a, b, c, d));
+                    note_depth(st, op, ty, &[a as i128, b as i128, c as i128, d as i128]);
                 }
                 st.add(&format!("box_binary_{}", ty), BIN_OPS.len() as u64);
                 if c == 0 {
@@ -328,7 +437,36 @@ fn gen(args: &Args, emit: &mut dyn FnMut(String), st: &mut Stats) {
         let mut c = { let v = magnitude(&mut rng, g); signed(&mut rng, v) };
         let mut d = { let v = nonzero(magnitude(&mut rng, g)); signed(&mut rng, v) };
         let mut kind = "plain";
-        match rng.below(6) {
+        let mut forced_op: Option<&str> = None;
+        match rng.below(8) {
+            4 | 5 => {
+                // Fibonacci / Lucas ratios: F(m)L(n) + F(n)L(m) = 2F(m+n), F(n)L(n) = F(2n), so the cross products that
+                // `norm` receives are (near-)consecutive Fibonacci numbers of twice the index: the Euclid loop needs
+                // about 2n rounds (up to ~80 for i64 inside the 2^30 guard, ~170 for i128) although every operand is
+                // inside the guard and every operand fraction is already in lowest terms
+                let (f, l) = fib_lucas(g);
+                let nmax = l.len() - 1;
+                let n = nmax - rng.below(10.min(nmax as u64 - 2)) as usize;
+                let op = *rng.pick(&["mul", "div", "add", "sub", "cmp", "eq", "new"]);
+                // for + - cmp ==: n = 1 (mod 3) makes F(n-1), L(n-1) even, and
+                // (F(n-1)/2)/F(n) + (L(n-1)/2)/L(n) has cross products F(2n-1) over F(2n): 2n-2 Euclid rounds
+                let n3 = n - (n + 2) % 3;
+                let (xa, xb, ya, yb) = match op {
+                    "mul" => (f[n], f[n - 1], l[n], l[n - 1]),
+                    "div" => (f[n], f[n - 1], l[n - 1], l[n]),
+                    "add" => (f[n3 - 1] / 2, f[n3], l[n3 - 1] / 2, l[n3]),
+                    "new" => (f[n], f[n - 1], 1, 1),
+                    _ => (f[n3 - 1] / 2, f[n3], -l[n3 - 1] / 2, l[n3]),
+                };
+                // either sign of the denominators (value unchanged)
+                let (sx, sy) = (if rng.chance(1, 2) { -1 } else { 1 }, if rng.chance(1, 2) { -1 } else { 1 });
+                a = xa * sx;
+                b = xb * sx;
+                c = ya * sy;
+                d = yb * sy;
+                forced_op = Some(op);
+                kind = "fibonacci_ratio";
+            }
             0 => {
                 // a factor shared across the two fractions (a with d, b with c) and inside each
                 let f = rng.below(1 << 10) as i128 + 2;
@@ -369,8 +507,23 @@ fn gen(args: &Args, emit: &mut dyn FnMut(String), st: &mut Stats) {
             _ => {}
         }
         st.bump(&format!("sampled_{}", kind));
-        if rng.chance(1, 4) {
+        if let Some(op) = forced_op {
+            if op == "new" {
+                emit(format!("new:{} {} {}", ty, a, b));
+                note_depth(st, op, ty, &[a, b]);
+            } else {
+                emit(format!("{}:{} {} {} {} {}", op, ty, a, b, c, d));
+                note_depth(st, op, ty, &[a, b, c, d]);
+            }
+            st.bump(&format!("sampled_{}_{}", op, ty));
+            continue;
+        }
+        if rng.chance(1, 20) {
+            emit(format!("newint:{} {}", ty, a));
+            st.bump(&format!("sampled_newint_{}", ty));
+        } else if rng.chance(1, 4) {
             let op = *rng.pick(&UN_OPS);
+            note_depth(st, op, ty, &[a, b]);
             emit(format!("{}:{} {} {}", op, ty, a, b));
             st.bump(&format!("sampled_{}_{}", op, ty));
             if a < 0 {
@@ -382,6 +535,7 @@ fn gen(args: &Args, emit: &mut dyn FnMut(String), st: &mut Stats) {
         } else {
             let op = *rng.pick(&BIN_OPS);
             emit(format!("{}:{} {} {} {} {}", op, ty, a, b, c, d));
+            note_depth(st, op, ty, &[a, b, c, d]);
             st.bump(&format!("sampled_{}_{}", op, ty));
             if b < 0 || d < 0 {
                 st.bump("sampled_negative_denominator");
@@ -415,6 +569,10 @@ fn gen(args: &Args, emit: &mut dyn FnMut(String), st: &mut Stats) {
                 emit(format!("{}:{} {} {}", op, ty, a, b));
                 st.bump("min_and_zero_probes");
             }
+        }
+        for n in [mn, mn + 1, ty_max(ty), 0] {
+            emit(format!("newint:{} {}", ty, n));
+            st.bump("min_and_zero_probes");
         }
         for op in BIN_OPS {
             emit(format!("{}:{} 1 2 0 0", op, ty));
